@@ -15,7 +15,8 @@ import GqlModel.ArgMap
   * Map iteration (`val.MapKeys()`, random in Go) only decides WHICH unknown key is reported; the
     model takes the association-list order and also reports the other offending keys (`alts`).
 
-  LEGACY QUIRKS of the pinned tree are isolated in the three `legacy…` definitions below.
+  LEGACY QUIRKS of the pinned tree are isolated in the `legacy…` switches below (both repaired:
+  R14a in the tree, R14d by r14d.patch).
 -/
 namespace Gql
 open Gql.Strconv
@@ -37,21 +38,29 @@ inductive Res (α : Type)
 
 /- ===================== legacy switches (R14a, R14d) ===================== -/
 
-/-- R14d: `_, err := v.validateVarType(typ.Elem, field)` — the coerced element is DISCARDED, the
-    slice keeps the (in-place mutated) original element.  Repaired behaviour: `false`
-    (the element is replaced by the returned value; see `storeElem`). -/
-def legacyDiscardNestedListResult : Bool := true
+/-- R14d: `_, err := v.validateVarType(typ.Elem, field)` — the coerced element was DISCARDED, the
+    slice kept the (in-place mutated) original element.  `false` = the repaired behaviour of
+    r14d.patch: `cval, err := …`; when the dynamic type of the element changed (a single value was
+    wrapped into a list, or a typed list was rebuilt) `cval` is stored back with
+    `val.Index(i).Set(cval)`; otherwise the element was coerced in place and `cval` IS the element
+    (see `storeElem`, `storeElemType`). -/
+def legacyDiscardNestedListResult : Bool := false
 
 /-- R14a: in the list branch the zero Value (a null) reaches `val.Type()` → reflect panic.
     Repaired behaviour: `false` (null handled before the list branch: nullable ⇒ returned as is). -/
-def legacyNullIntoListPanics : Bool := true
+def legacyNullIntoListPanics : Bool := false
 
-/-- what the element of the result slice becomes after its recursive call returned `(ret, upd)` -/
+/-- what the element of the result slice becomes after its recursive call returned `(ret, upd)`.
+    Repaired code: `ret` (when the dynamic type is unchanged `ret` and `upd` are the same value, so
+    "store back only if the type changed" and "always take `ret`" coincide). -/
 def storeElem (ret upd : GoVal) : GoVal :=
   if legacyDiscardNestedListResult then upd else ret
 
-/-- element type of the result slice: legacy keeps the type; a repair that stores coerced elements
-    back has to widen a typed slice whose elements changed type -/
+/-- element type of the result slice: legacy keeps the type.  Repaired code: the slice is kept
+    (elements set in place) as long as every coerced element is assignable to its element type —
+    for the domain: the slice is a `[]interface{}`, or no element changed its dynamic type —;
+    otherwise it is copied into a fresh `[]interface{}` (`reflect.MakeSlice` + element-wise `Set`)
+    before the coerced element is stored. -/
 def storeElemType (t : GoType) (before after : GoVals) : GoType :=
   if legacyDiscardNestedListResult then t
   else if (before.toList.map GoVal.type?) = (after.toList.map GoVal.type?) then t else .iface
